@@ -270,7 +270,7 @@ def run_oval(ctx, raw, gen, vers):
             want = spec.conforms(pruned[key], vg.lower_json(d))
             if want != (r[1] == []):
                 hbad += 1
-                kws = sorted({str(p[-1]) for p, *_ in r[1]}) if r[1] else []
+                kws = sorted({str(p[-1]) if p else "root" for p, *_ in r[1]}) if r[1] else []
                 ctx.violation("version:doc:%s" % (",".join(kws[:2]) or "accepted"),
                               "generated document at version %r: validate %s, pruned schema %s" % (v, "accepts" if r[1] == [] else "rejects", "accepts" if want else "rejects"),
                               {"kind": "doc", "doc": json.loads(json.dumps(d)), "version": v, "expected_accept": want})
